@@ -89,6 +89,15 @@ def _job(spec):
                                        "events": rec.events[:5]})
     except tlc.TLCError as error:
         out["error"] = "TLC: %s" % error
+    except AttributeError as error:
+        # the recorder reads the internal attributes named in the properties' anchors (table_to_plane, kmeans, arm_to_tree,
+        # decisions ...); if a refactoring removed one the traces cannot be recorded: counted, never a violation
+        frames = traceback.extract_tb(error.__traceback__)
+        if frames and "/harness/" in frames[-1].filename:
+            out["unavailable"] = "%s" % error
+            out.setdefault("tlc", {"states": 0, "generated": 0, "wall": 0.0})
+        else:
+            out["error"] = traceback.format_exc()
     except Exception:  # noqa
         out["error"] = traceback.format_exc()
     return out
@@ -102,6 +111,10 @@ def run_jobs(report, jobs, keep, procs=None):
     for spec, out in zip(jobs, results):
         if out.get("error"):
             raise Machinery("nb job %s failed: %s" % (spec["name"], out["error"]))
+        if out.get("unavailable"):
+            report.count("nb.projection_unavailable")
+            report.notes.append("projection unavailable for %s: %s" % (spec["name"], out["unavailable"]))
+            continue
         t = out["tlc"]
         report.states += t["states"]
         report.transitions += t["generated"]
